@@ -880,7 +880,9 @@ pub fn extract_trait_facts(src: &str, f: &mut Facts) {
                                 let mut built: Option<String> = None;
                                 for x in b..bc {
                                     // self . user_grammar . m (
-                                    if t[x].is_id("user_grammar") && x + 3 < bc && t[x + 1].is_p(".") && t[x + 3].is_p("(") {
+                                    if t[x].is_id("user_grammar") && x >= 2 && t[x - 2].is_id("self") && t[x - 1].is_p(".")
+                                        && x + 3 < bc && t[x + 1].is_p(".") && t[x + 3].is_p("(")
+                                    {
                                         rel(f, "nt-method", &lhs, &name_at(&t, x + 2));
                                     }
                                     // <AstEnum> :: V
